@@ -55,6 +55,21 @@ def gen_cases(rng, tier):
             h = pre + ['d30', 't60', 'r30', 't2', 'r30', 't5', 'u30', 't60', 'r30', 't5'] + post
             cases.append({'id': 'c14-form-%d-%d' % (fi, layered), 'cfg': cfg, 'hist': h, 'sub': 'ksim', 'form': True,
                           'tags': {'form': f, 'layered': layered}})
+    # overrides as part of what puts the key down: the position is remapped (a -> x / y / z), the override is declared for the key the
+    # action outputs, for the key another override outputs (a chain on one position) or for the name of the physical position;
+    # modifiers held on other positions; the key at the OS is then the override's output and that is what must repeat
+    oi = 0
+    for f in forms:
+        if f in ('use-defsrc', '_'):
+            continue
+        for ot in ['(lsft x) (lsft 9)', '(lsft x) (y) (lctl y) (z)', '(lctl y) (z) (lsft x) (y)', '(lsft a) (lsft 8)', '(x) (9) (y) (8)',
+                   '(lsft x) (9) (lsft y) (8)']:
+            for held in (['d31'], ['d31', 'd32'], ['d32']):
+                cfg = '(defsrc a s d)\n(deflayer l0 %s lsft lctl)\n(defoverrides %s)' % (f, ot)
+                h = held + ['t3', 'd30', 't60', 'r30', 't2', 'r30', 't5', 'u30', 't60', 'r30', 't5', 'u31', 'u32', 't30']
+                cases.append({'id': 'c14-ovr-%d' % oi, 'cfg': cfg, 'hist': h, 'sub': 'ksim', 'form': True, 'others': [42, 29],
+                              'tags': {'form': 'override:' + f, 'overrides': ot, 'mods_held': len(held)}})
+                oi += 1
     # two layers held at once that map the same position differently: the key went down through the layer that was active when it
     # was pressed; its repeat must be forwarded whichever layers are held on top afterwards (and whatever they map there)
     li = 0
@@ -154,7 +169,8 @@ def oracle(case, it):
                         # the key was typed into a hidden sequence (never pressed at the OS) and is still held after the sequence ended
                         tag = ' [hidden-sequence-key-held-past-end]'
                     return 'repeat emitted for key %s which is up at the OS (down: %s) at tick %s%s' % (mm.group(1), down, m.group(1), tag)
-            elif case.get('form') and down and int(m.group(1)) >= 60 and int(m.group(1)) < 70:
+            elif case.get('form') and [k for k in down if k not in case.get('others', ())] and int(m.group(1)) >= 60 and int(m.group(1)) < 70:
+                # (`others`: modifiers held on other positions do not show that the repeated position put anything down)
                 return 'held key produced %s but its repeat at tick %s was not forwarded' % (down, m.group(1))
     return None
 
